@@ -147,26 +147,72 @@ func TestReplay(t *testing.T) {
 	defer r.Close()
 	var samples []any
 	runs := 0
-	maxOnline := tracefmt.EnvInt("VERIF_ONLINE", 2)
-	for online := 0; online <= maxOnline; online++ {
-		if online > 0 {
-			c, err := r.NewClient(rig.P1_20_3)
-			if err != nil {
-				t.Fatal(err)
-			}
-			if err := c.JoinFully("localhost", fmt.Sprintf("Player%d", online)); err != nil {
-				t.Fatalf("join: %v", err)
-			}
-			defer c.Close()
-			if !rig.WaitFor(3*time.Second, func() bool { return r.P.PlayerCount() == online }) {
-				t.Fatalf("player count %d never reached", online)
-			}
+	// The number of online players is the harness's own ground truth (clients it joined and
+	// has not closed), never a number read back from the proxy. Phases churn the registry
+	// (join, rejected duplicate login, leave) before the pings.
+	clients := map[string]*rig.Client{}
+	join := func(name string) {
+		c, err := r.NewClient(rig.P1_20_3)
+		if err != nil {
+			t.Fatal(err)
 		}
+		if err := c.JoinFully("localhost", name); err != nil {
+			t.Fatalf("join %s: %v", name, err)
+		}
+		clients[name] = c
+		if !rig.WaitFor(5*time.Second, func() bool { return r.P.PlayerByName(name) != nil }) {
+			t.Fatalf("%s never became findable", name)
+		}
+	}
+	leave := func(name string) {
+		clients[name].Close()
+		delete(clients, name)
+		if !rig.WaitFor(10*time.Second, func() bool { return r.P.PlayerByName(name) == nil }) {
+			t.Fatalf("%s still findable 10 s after its connection closed", name)
+		}
+	}
+	duplicate := func(name string) {
+		c, err := r.NewClient(rig.P1_20)
+		if err != nil {
+			t.Fatal(err)
+		}
+		_, _ = c.LoginOffline("localhost", name) // expected to be refused: already connected
+		c.Conn.Timeout = 5 * time.Second
+		c.ReadUntilClosed(50)
+		c.Close()
+		time.Sleep(20 * time.Millisecond)
+	}
+	defer func() {
+		for _, c := range clients {
+			c.Close()
+		}
+	}()
+	type phase struct {
+		name  string
+		do    func()
+		churn bool
+	}
+	phases := []phase{
+		{"empty", func() {}, false},
+		{"one-joined", func() { join("Player1") }, false},
+		{"duplicate-login-rejected", func() { duplicate("Player1"); duplicate("player1") }, true},
+		{"second-joined", func() { join("Player2") }, true},
+		{"second-left", func() { leave("Player2") }, true},
+		{"all-left", func() { duplicate("Player1"); leave("Player1") }, true},
+	}
+	full := tracefmt.Thorough()
+	for pi, ph := range phases {
+		ph.do()
+		online := len(clients)
+		_ = pi
 		var mu sync.Mutex
 		var wg sync.WaitGroup
 		sem := make(chan struct{}, 8)
 		for hi, h := range hists {
 			hi, h := hi, h
+			if ph.churn && !full && !(h.H[0].K == "req" && hi%5 == pi%5) {
+				continue // quick tier: after churn only a sample of the request-first histories
+			}
 			seed := rng.Int63()
 			wg.Add(1)
 			sem <- struct{}{}
@@ -184,7 +230,7 @@ func TestReplay(t *testing.T) {
 					t.Error(err)
 					return
 				}
-				recs := []tracefmt.Rec{{"ev": "reset", "cp": h.CP, "online": r.P.PlayerCount(), "supported": sup, "max": max, "hist": hi}}
+				recs := []tracefmt.Rec{{"ev": "reset", "cp": h.CP, "online": online, "phase": ph.name, "supported": sup, "max": max, "hist": hi}}
 				var log []any
 				for _, s := range h.H {
 					var payload [8]byte
@@ -234,9 +280,6 @@ func TestReplay(t *testing.T) {
 			}()
 		}
 		wg.Wait()
-		if got := r.P.PlayerCount(); got != online {
-			t.Fatalf("player count changed during the run: %d != %d", got, online)
-		}
 	}
 	if err := tw.Close(); err != nil {
 		t.Fatal(err)
